@@ -16,21 +16,28 @@ CONSTANTS AllVariants,   \* TRUE: every single-iteration scenario x every varian
           MultiPlans,    \* ... this many of them (rotating through PlanSeq)
           OptEvery,      \* one single-iteration scenario in OptEvery is also run with an execution option set
           ConcEvery,     \* one multi-request scenario in ConcEvery is also run by Conc goroutines at once, all
-          Conc           \* iterating the SAME prepared statement, each with its own bound key
+          Conc,          \* iterating the SAME prepared statement, each with its own bound key
+          PinEvery       \* one automatically paged multi-page scenario in PinEvery is also run pinned to one connection
+                         \* (Conn.query, the path of the control connection's queries) of a two-node session
 
 VARIABLE variant
 
 Preps == <<"query", "exec0", "exec2">>
 \* rebind: the caller calls q.Bind(values...) (and PageState(s) again in manual mode) before executions 2, 3
-Variants == {[prep |-> Preps[i], skip |-> k, rebind |-> 0, opt |-> "none", conc |-> 1] : i \in 1 .. 3, k \in {0, 1}}
-VariantNo(i) == [prep |-> Preps[(i % 3) + 1], skip |-> (i \div 3) % 2, rebind |-> 0, opt |-> "none", conc |-> 1]
+Variants == {[prep |-> Preps[i], skip |-> k, rebind |-> 0, opt |-> "none", conc |-> 1, pin |-> "no"] : i \in 1 .. 3, k \in {0, 1}}
+VariantNo(i) == [prep |-> Preps[(i % 3) + 1], skip |-> (i \div 3) % 2, rebind |-> 0, opt |-> "none", conc |-> 1, pin |-> "no"]
 
 \* Execution options of the Query. None of them changes what the property demands of the iteration:
 \* a serial consistency, speculative execution armed (idempotent query), a retry policy, WithContext (cancelled
 \* / timing out long after the end), an observer, tracing, a caller-chosen timestamp, a custom payload, and
 \* "release": q.Release() as soon as Iter() has returned, other queries then built from the pool.
-Opts == <<"serial", "spec", "release", "retry", "ctx", "trace", "ts", "ctxto", "observer", "payload">>
-OptsReexec == <<"none", "serial", "spec", "none", "retry", "ctx", "trace", "none", "ts", "payload">>   \* (a released Query is not executed again)
+\* retry / retryignore / retrynext / retrysame: a RetryPolicy whose verdict on a failed page is Rethrow / Ignore /
+\* RetryNextHost / Retry (once, on the same host): whatever the verdict, a page fetch that stays failed is the
+\* iteration's error (what the retries themselves look like is C13's; a repeated request of the failed page is
+\* logged as `retry`, not as a page request)
+Opts == <<"serial", "spec", "release", "retry", "retryignore", "ctx", "trace", "retrynext", "ts", "ctxto", "retrysame",
+          "observer", "payload">>
+OptsReexec == <<"none", "serial", "spec", "none", "retry", "ctx", "retryignore", "trace", "none", "ts", "payload", "retrysame">>   \* (a released Query is not executed again)
 
 \* the same Query value executed two or three times: after a complete iteration, after stopping early
 PlanSeq == << <<-1, -1>>, <<0, -1>>, <<1, -1>>, <<2, -1, -1>>, <<-1, 1, -1>>, <<-1, -1, -1>> >>
@@ -57,11 +64,23 @@ VariantsFor(sc) ==
        \* concurrent iterations of one prepared statement (told apart by the bound key: EXECUTE with values), results
        \* with a page that announces a successor, metadata skipped or not
        (IF (Len(sc.pages) > 1 \/ sc.mode = "manual") /\ Rot3(sc) % ConcEvery = 1 % ConcEvery
-        THEN {[prep |-> "exec2", skip |-> IF Rot2(sc) % 4 = 0 THEN 0 ELSE 1, rebind |-> 0, opt |-> "none", conc |-> Conc]}
+        THEN {[prep |-> "exec2", skip |-> IF Rot2(sc) % 4 = 0 THEN 0 ELSE 1, rebind |-> 0, opt |-> "none", conc |-> Conc, pin |-> "no"]}
+        ELSE {}) \cup
+       \* pinned to a connection: the failing page fails by an ERROR answer ("error") or because the pinned
+       \* connection is lost after the page before it ("lost": needs a page before it)
+       (IF sc.mode = "auto" /\ Len(sc.pages) > 1 /\ Rot3(sc) % PinEvery = 2 % PinEvery
+        THEN {[prep |-> "query", skip |-> 0, rebind |-> 0, opt |-> "none", conc |-> 1,
+               \* (lost: the caller sees to it after the last row of the page before - which must have one - and there
+               \*  must be no prefetch that could already have asked for the page)
+               pin |-> IF sc.fail >= 2 /\ sc.pages[sc.fail - 1] >= 1 /\ (sc.q = 0 \/ sc.kind = "Scanner")
+                          /\ sc.kind # "SliceMap" THEN "lost" ELSE "error"]}
         ELSE {})
   ELSE IF Rot2(sc) % MultiEvery = 0
             /\ \E j \in 0 .. MultiPlans - 1 : sc.plan = PlanSeq[((Rot2(sc) \div MultiEvery + j * 3) % Len(PlanSeq)) + 1]
-       THEN {[VariantNo(Rot2(sc) \div 2) EXCEPT !.rebind = (Rot2(sc) \div 3) % 2,
+       \* rebind 1: q.Bind(values) and (manual mode) PageState(s) again before executions 2, 3;  2: q.Bind(values)
+       \* only - the Query then holds no paging state any more (a paging state is only sent if the caller supplied
+       \* it or the previous page carried it; the caller supplied it for the arguments bound before)
+       THEN {[VariantNo(Rot2(sc) \div 2) EXCEPT !.rebind = (Rot2(sc) \div 3) % 3,
                                                 !.opt = OptsReexec[(Rot3(sc) % Len(OptsReexec)) + 1]]}
        ELSE {}
 
@@ -71,13 +90,23 @@ GenInit == /\ PickScenario
 GenNext == UNCHANGED <<scen, state, variant>>
 GenSpec == GenInit /\ [][GenNext]_<<scen, state, variant>>
 
+\* the scenario execution e of the plan is an iteration of
+ScenAt(sc, v, e) == IF e > 1 /\ v.rebind = 2 /\ sc.mode = "manual" THEN [sc EXCEPT !.start = 0]
+                    ELSE IF v.pin = "lost"
+                    THEN [pages |-> sc.pages, q |-> sc.q, kind |-> sc.kind, fail |-> sc.fail, mode |-> sc.mode,
+                          start |-> sc.start, plan |-> sc.plan, fkind |-> "lost"]
+                    ELSE sc
+
 Emit ==
   PrintT(<<"CASE", ToJson(
     [pages |-> scen.pages, q |-> scen.q, kind |-> scen.kind, fail |-> scen.fail, mode |-> scen.mode,
      start |-> scen.start, plan |-> scen.plan, prep |-> variant.prep, skip |-> variant.skip,
-     rebind |-> variant.rebind, opt |-> variant.opt, conc |-> variant.conc, size |-> SizeOf(scen),
+     rebind |-> variant.rebind, opt |-> variant.opt, conc |-> variant.conc, pin |-> variant.pin, size |-> SizeOf(scen),
      exp |-> [reqs |-> ExpReqs(scen), rows |-> ExpRows(scen), delivered |-> ExpDelivered(scen),
               ended |-> ExpEnd(scen), err |-> ExpErr(scen), exposed |-> ExpExposed(scen),
               execs |-> [e \in 1 .. Len(scen.plan) |->
-                          [stop |-> StopOf(scen, e), rows |-> ExpExecRows(scen, e), ended |-> ExpExecEnd(scen, e)]]]])>>)
+                          LET sc == ScenAt(scen, variant, e) IN
+                          [stop |-> StopOf(sc, e), start |-> sc.start, rows |-> ExpExecRows(sc, e),
+                           ended |-> ExpExecEnd(sc, e), reqs |-> ExpReqs(sc), err |-> ExpErr(sc),
+                           exposed |-> ExpExposed(sc)]]]])>>)
 =============================================================================
